@@ -11,7 +11,7 @@ use crate::geom::{self, Family, P};
 use crate::statejson::{self, Params, ShapeSpec};
 
 pub const TITLE: &str = "The CLI writes the best replica, labelled with what was asked for";
-pub const RULE: &str = "part cli: (group, shape subcommand with options, potential, step settings) run with replications k = 1..kmax (kmax 2..4). Oracle per run: the score of the written structure (re-read from the .json) equals the maximum of the replica scores reported by the verif-hooks line of each replica and equals the logged 'Final score' (rel 1e-12); across k the written score never decreases (replicas are seeds 0..k-1, so k+1 replicas contain the first k); the JSON records the requested group name, the ITA crystal family of that group for wallpaper and cell, the requested shape (polygon: the documented vertices; circle/trimer: the documented discs or LJ particles with sigma = 2 r), the group's number of operations, and re-reading it yields that many placements. part ladder: one argument set run with 1, 2, 3, 5, 8, ... replications (Fibonacci numbers up to 144; up to 6765 in the thorough tier, beyond the CLI default of 100): the logged score never decreases along the ladder. part ordering: vectors of 2..6 generated valid states of one shape; max() and cmp() must agree with the comparison of score(). Non-trivial = a run with k >= 2 and >= 2 distinct replica scores, or an ordering vector with >= 2 distinct scores; distinct by hash of the case.";
+pub const RULE: &str = "part cli: (group, shape subcommand with options, potential, step settings) run with replications k = 1..kmax (kmax 2..4). Oracle per run: the score of the written structure (re-read from the .json) equals the maximum of the replica scores reported by the verif-hooks line of each replica and equals the logged 'Final score' (rel 1e-12); across k the written score never decreases (replicas are seeds 0..k-1, so k+1 replicas contain the first k); the JSON records the requested group name, the ITA crystal family of that group for wallpaper and cell, the requested shape (polygon: the documented vertices; circle/trimer: the documented discs or LJ particles with sigma = 2 r), the group's number of operations, and re-reading it yields that many placements. part ladder: one argument set run with 1, 2, 3, 5, 8, ... replications (Fibonacci numbers up to 144; up to 6765 in the thorough tier, beyond the CLI default of 100): the logged score never decreases along the ladder; part ladder-deep: one such ladder up to 6765 replications in every tier. part ordering: vectors of 2..6 generated valid states of one shape; max() and cmp() must agree with the comparison of score(). Non-trivial = a run with k >= 2 and >= 2 distinct replica scores, or an ordering vector with >= 2 distinct scores; distinct by hash of the case.";
 
 pub fn assumptions() -> Vec<&'static str> {
     vec!["clause 'highest-scoring among its replicas' is decided exactly through the guarded hook (one line per replica); prefix monotonicity does not depend on the hook", "runs that exit non-zero are C20's subject and are skipped here"]
@@ -314,6 +314,15 @@ fn ladder_strat(_: &Ctx) -> BoxedStrategy<LadderCase> {
 
 fn ladder_oracle(c: &LadderCase, rec: &Rec, ctx: &Ctx) -> Result<(), String> {
     let top: i64 = if ctx.tier == crate::engine::Tier::Quick { 144 } else { 6765 };
+    ladder_to(c, rec, ctx, top, 8)
+}
+
+// one ladder up to 6765 replications in every tier (the quick tier's only visit beyond a few hundred replications)
+fn deep_ladder_oracle(c: &LadderCase, rec: &Rec, ctx: &Ctx) -> Result<(), String> {
+    ladder_to(c, rec, ctx, 6765, 16)
+}
+
+fn ladder_to(c: &LadderCase, rec: &Rec, ctx: &Ctx, top: i64, threads: usize) -> Result<(), String> {
     let mut ks = vec![1i64, 2];
     while *ks.last().unwrap() < top {
         let n = ks[ks.len() - 1] + ks[ks.len() - 2];
@@ -338,7 +347,7 @@ fn ladder_oracle(c: &LadderCase, rec: &Rec, ctx: &Ctx) -> Result<(), String> {
         };
         let dir = cli::scratch_dir(ctx);
         let outfile = dir.join("out");
-        let r = cli::run(ctx, &a.to_argv(&outfile), &outfile, Some(8), 900);
+        let r = cli::run(ctx, &a.to_argv(&outfile), &outfile, Some(threads), 900);
         let _ = std::fs::remove_dir_all(&dir);
         let out = r?;
         rec.eval(1);
@@ -372,5 +381,6 @@ pub fn parts() -> Vec<PartDef> {
         part("cli", 400, 6_000, cli_strat, cli_oracle),
         part("ordering", 20_000, 600_000, order_strat, order_oracle),
         crate::engine::part_opts("ladder", 8, 8, ladder_strat, ladder_oracle, |c: &LadderCase, _: &dyn Fn(&LadderCase) -> bool| c.clone(), crate::engine::PartOpts { max_shards: 2, max_shrink_iters: 4 }),
+        crate::engine::part_opts("ladder-deep", 1, 2, ladder_strat, deep_ladder_oracle, |c: &LadderCase, _: &dyn Fn(&LadderCase) -> bool| c.clone(), crate::engine::PartOpts { max_shards: 1, max_shrink_iters: 2 }),
     ]
 }
